@@ -206,6 +206,15 @@ def run_case(case):
     hostile = any(
         v >= progs.N_FS for x in progs.walk(prog) for k, v in x[1].items() if k in ("fs", "sf", "ef")
     )
+    # logging must not use up the application's objects: the one-shot iterator among the hostile values
+    # is still unstarted afterwards
+    import inspect
+
+    for fsd in progs.HOSTILE:
+        for v in fsd.values():
+            if inspect.isgenerator(v) and inspect.getgeneratorstate(v) != inspect.GEN_CREATED:
+                viol.append(("application-iterator-consumed-by-logging", {"state": inspect.getgeneratorstate(v)}))
+                fsd["h"] = (i for i in [1])  # fresh one for the next case
     return Result(
         outcome=[sorted(outcomes), execs],
         nontrivial=hostile or faults > 0,
